@@ -448,6 +448,59 @@ func runInterleaved(c *fw.Ctx, codec string) {
 	c.Sample(map[string]interface{}{"kind": "two encoders, B driven from inside A's writes", "codec": codec, "interleavings": n})
 }
 
+// runLong: one long history per codec and block size — thousands of calls, so that whatever grows, shrinks, wraps or
+// is cached "every so often" inside the encoder gets its chance; the model is checked after every 97th call and at
+// the end.
+func runLong(c *fw.Ctx, codec string) {
+	k := encdrv.K1
+	for _, bs := range []int{0, 100, 5000, 1 << 20} {
+		cf := config{k, codec, bs, 0}
+		desc := fmt.Sprintf("%s codec=%s blocksize=%d long history (6000 calls)", k.Name, codec, bs)
+		locus := fmt.Sprintf("%s|bs=%s|long-history", k.Name, bsClass(cf))
+		c.Eval(1)
+		c.Begin(locus, desc)
+		c.Nontrivial(desc)
+		c.Guard(locus, desc, desc, func() {
+			var buf bytes.Buffer
+			e, err := encdrv.New(k, &buf, codec, bs)
+			if err != nil {
+				c.Violation("ctor-error|"+locus, err.Error(), desc)
+				return
+			}
+			m := &encdrv.Model{K: k, BlockSize: bs}
+			seed := uint32(bs + 1)
+			for i := 0; i < 6000; i++ {
+				seed = seed*1664525 + 1013904223
+				op := int(seed>>24) % (k.NumOps() + 2) // flushes are rarer than encodes
+				if op >= k.NumOps() {
+					op = int(seed>>16) % (k.NumOps() - 1)
+				}
+				var err error
+				if k.IsFlush(op) {
+					err = e.Flush()
+				} else {
+					err = e.Encode(op)
+				}
+				m.Step(op)
+				if err != nil {
+					c.Violation("spurious-error|"+locus, fmt.Sprintf("call %d returned %v — %s", i, err, desc), desc)
+					return
+				}
+				if i%97 == 0 || i == 5999 {
+					if sig, msg := m.CheckOutput(buf.Bytes(), codec); sig != "" {
+						c.Violation(sig+"|"+locus, fmt.Sprintf("after call %d: %s — %s", i, msg, desc), desc)
+						return
+					}
+				}
+			}
+		})
+	}
+	c.Count("states", 4)
+	c.Count("transitions", 4*6000)
+	c.Count("traces_validated_against_impl", 4*6000)
+	c.Sample(map[string]interface{}{"kind": "long histories", "codec": codec, "calls_each": 6000, "block_sizes": []int{0, 100, 5000, 1 << 20}})
+}
+
 func lastOr(f [][]int) []int {
 	if len(f) == 0 {
 		return nil
@@ -464,17 +517,22 @@ func init() {
 			if tier == "thorough" {
 				d1, d0 = 8, 12
 			}
-			return fmt.Sprintf("explicit-state BFS over call histories of the real Encoder[T]: alphabet {encode(1B), encode(10B), encode(41B), flush} to depth %d for struct{S string} with block sizes {0,1,10,11,20,2^20}, the same with records of 102/9002/20003 bytes (block lengths in the 2- and 3-byte varint ranges) and with a 1.3 MB record between small ones (depth 4), and {encode(0B), flush} to depth %d for struct{} with block sizes {0,1,2^20}, × {null,deflate,snappy}; plus a sweep of every record size 0..1500 bytes (9000 thorough) and 2^k±4 up to 128 KiB of incompressible text (so the compressed block length sweeps the range as well) as two single-record blocks; plus every history of depth<=4 (5) over block sizes {0,10,2^20} in which, for every explicit flush with records pending, the writer refuses that flush's first write once (nothing consumed) and the flush is retried; plus two independent encoders of one codec alive at once, B driven to emit blocks from inside each of A's writes in turn; plus block sizes just above and well above 1 MiB with a 1.3 MB record; successor = replay of the shortest history on a fresh encoder + one call; states deduplicated on (pending records, sync-normalised output hash); after every call the whole output is parsed by the reference container parser and compared with the lock-step model {pending []record}; distinct_nontrivial counts distinct (config, history) pairs checked", d1, d0)
+			return fmt.Sprintf("explicit-state BFS over call histories of the real Encoder[T]: alphabet {encode(1B), encode(10B), encode(41B), flush} to depth %d for struct{S string} with block sizes {0,1,10,11,20,2^20}, the same with records of 102/9002/20003 bytes (block lengths in the 2- and 3-byte varint ranges) and with a 1.3 MB record between small ones (depth 4), and {encode(0B), flush} to depth %d for struct{} with block sizes {0,1,2^20}, × {null,deflate,snappy}; plus a sweep of every record size 0..1500 bytes (9000 thorough) and 2^k±4 up to 128 KiB of incompressible text (so the compressed block length sweeps the range as well) as two single-record blocks; plus every history of depth<=4 (5) over block sizes {0,10,2^20} in which, for every explicit flush with records pending, the writer refuses that flush's first write once (nothing consumed) and the flush is retried; plus two independent encoders of one codec alive at once, B driven to emit blocks from inside each of A's writes in turn; plus block sizes just above and well above 1 MiB with a 1.3 MB record; plus one fixed pseudo-random history of 6000 calls per codec and block size {0,100,5000,2^20}, model checked every 97 calls; successor = replay of the shortest history on a fresh encoder + one call; states deduplicated on (pending records, sync-normalised output hash); after every call the whole output is parsed by the reference container parser and compared with the lock-step model {pending []record}; distinct_nontrivial counts distinct (config, history) pairs checked", d1, d0)
 		},
 		Assumptions: []string{
 			"records are drawn from a 3-size alphabet (1, 10, 41 encoded bytes) plus the zero-byte record; larger records and other block sizes are not explored",
 			"canonical state = (pending record list, hash of all output with the random sync marker normalised): Encoder holds no other mutable state that influences the future (count, wb, compressor scratch overwritten per block)",
 			"reference container parser / decompressors (stdlib flate, golang/snappy) are trusted",
 		},
-		NumCases: func(tier string) int { return len(configs(tier)) + 3 + 9 + 3 },
+		NumCases: func(tier string) int { return len(configs(tier)) + 3 + 9 + 3 + 3 },
 		RunCase: func(c *fw.Ctx, idx int) {
 			n := len(configs(c.Tier))
 			codecs := []string{"null", "deflate", "snappy"}
+			if idx >= n+3+9+3 {
+				c.Begin("c09", "long history "+codecs[idx-n-15])
+				runLong(c, codecs[idx-n-15])
+				return
+			}
 			if idx >= n+3+9 {
 				c.Begin("c09", "two encoders "+codecs[idx-n-12])
 				runInterleaved(c, codecs[idx-n-12])
